@@ -597,7 +597,7 @@ def _check_cases(ctx, cases):
 
 def run(ctx):
     cases = _load_corpus()
-    N = ctx.n(45, 700)
+    N = ctx.n(45, 400)
     for _ in range(N):
         cases.append(_gen_case(ctx.rng, ctx.quick))
     B = 150
